@@ -676,6 +676,7 @@ inductive SettingClass where
   | restored      -- changed for the duration of a bracket and restored in `finally` / by a context manager
   | importCache   -- `sys.modules` (modelled: `CacheId.importModule`; finding D19d)
   | rng           -- advances / re-seeds a process-wide PRNG: random functions, outside `Det`
+  | cacheFlush    -- empties caches that only memoise the file system (`importlib.invalidate_caches()`): idempotent, nothing to restore
   | notRestored   -- a process-wide setting changed and left changed: a defect (none today)
   deriving DecidableEq, Repr
 
@@ -697,6 +698,8 @@ def processSettingWrites : List (String × String × String × SettingClass × S
    ("plugins.py", "_register_for_continuation", "call yaml.SafeLoader.add_constructor [yaml]", .registry, "PluginResult subclasses, keyed by module.class"),
    ("plugins.py", "plugin_path", "call patch.object [unittest.mock.patch]", .restored, "sys.path, used as a context manager (`sys_path_is_bracket`)"),
    ("plugins.py", "resolve_plugin_alternatives", "call import_module [importlib.import_module]", .importCache, "D19d"),
+   ("plugins.py", "resolve_plugins", "call invalidate_caches [importlib.invalidate_caches] (result discarded)", .cacheFlush,
+    "commit b940bd9 (D58): drops the finders' directory listings and negative path entries (`sys.path_importer_cache`), NOT `sys.modules`; afterwards every lookup is answered from the file system, exactly as in a fresh process — it can only remove a difference to the fresh-process run (`flushed_caches_stay_consistent`)"),
    ("row_history.py", "RowHistory.random_row_reference", "call warnings.warn [warnings] (result discarded)", .warnOnce, "experimental scope"),
    ("standard_plugins/datasets.py", "CSVDatasetRandomPermutationIterator.start", "call shuffle [random.shuffle] (result discarded)", .rng, "Dataset.shuffle"),
    ("standard_plugins/datasets.py", "chdir", "call os.chdir [os]", .restored, "`chdir_is_bracket`, `cwd_restored`"),
